@@ -7,8 +7,8 @@
 
 namespace {
 
-enum { T_SUPPORTED, T_REFUSED, T_CLIPPING, T_END_OF_SONG, T_NT };
-static const std::vector<std::string> TAGS = {"supported_pair_converted", "unsupported_pair_refused", "material_exceeds_16bit", "play_reached_end_of_song"};
+enum { T_SUPPORTED, T_REFUSED, T_CLIPPING, T_END_OF_SONG, T_PARTIAL_CLIP, T_NT };
+static const std::vector<std::string> TAGS = {"supported_pair_converted", "unsupported_pair_refused", "material_exceeds_16bit", "play_reached_end_of_song", "partial_chip_sum_exceeds_16bit"};
 static std::vector<uint8_t> g_bank, g_song;
 
 static const int CORES[] = {OPNMIDI_EMU_MAME, OPNMIDI_EMU_GENS, OPNMIDI_EMU_NUKED_YM3438, OPNMIDI_EMU_YMFM_OPN2, OPNMIDI_EMU_NP2, OPNMIDI_EMU_MAME_2608, OPNMIDI_EMU_YMFM_OPNA, OPNMIDI_EMU_NUKED_YM2612};
@@ -117,6 +117,47 @@ static void run_case(const Cfg &c, en::CaseOut &o) {
     pl::g_use_null_chips = true;
 }
 
+// "The same signal": with several chips the signal is the plain sum of what each chip generates. An instance with the same history is rendered chip by chip (OPNChipBase::generate32 on every chip of
+// its own, period by period as the audio call does, ticking the player in between) and summed without any clamping; the F64 / S16 output of the audio call must be that sum (S16: saturated).
+static void run_mix_case(const Cfg &c, en::CaseOut &o) {
+    pl::g_use_null_chips = false;
+    pl::Instance R, Q, S;
+    if(!make(R, c) || !make(Q, c) || !make(S, c)) { o.fail("C13/harness", "setup failed"); return; }
+    std::string ctx = " [" + cfg_str(c, &R) + "]"; char b[400];
+    const int frames = c.request / 2;
+    std::vector<double> ref((size_t)frames * 2 + 8, 0.0); std::vector<int16_t> s16((size_t)frames * 2 + 8, 0);
+    OPNMIDI_AudioFormat f64 = {OPNMIDI_SampleType_F64, 8, 16}, f16 = {OPNMIDI_SampleType_S16, 2, 4};
+    int r1 = opn2_generateFormat(R.dev, c.request, (OPN2_UInt8 *)ref.data(), (OPN2_UInt8 *)(ref.data() + 1), &f64);
+    int r2 = opn2_generateFormat(Q.dev, c.request, (OPN2_UInt8 *)s16.data(), (OPN2_UInt8 *)(s16.data() + 1), &f16);
+    if(r1 != c.request || r2 != c.request) { snprintf(b, sizeof b, "returned %d / %d for a request of %d", r1, r2, c.request); o.fail("C13/return/generate", b + ctx); return; }
+    // chip-by-chip rendering of the third instance
+    OPNMIDIplay *p = S.play(); OPN2 &y = *p->m_synth; OPNMIDIplay::Setup &su = p->m_setup;
+    std::vector<int64_t> sum((size_t)frames * 2, 0); std::vector<int32_t> tmp(1024);
+    int left = c.request, pos = 0; double delay = double(c.request / 2) / double(su.PCM_RATE);
+    while(left > 0) {
+        if(delay <= 0.0) delay = double(left / 2) / double(su.PCM_RATE);
+        const double eat = delay < su.maxdelay ? delay : su.maxdelay; delay -= eat;
+        su.carry += double(su.PCM_RATE) * eat; long n = (long)su.carry; su.carry -= double(n);
+        if(n > left / 2) n = left / 2; if(n > 512) n = 512;
+        std::vector<int64_t> partial((size_t)n * 2, 0);
+        for(size_t card = 0; card < y.m_chips.size(); card++) { std::fill(tmp.begin(), tmp.end(), 0); y.m_chips[card]->generate32(tmp.data(), (size_t)n);
+            for(long k = 0; k < n * 2; k++) { partial[(size_t)k] += tmp[(size_t)k]; if(partial[(size_t)k] > 32767 || partial[(size_t)k] < -32768) o.tags |= 1ull << T_PARTIAL_CLIP; } }
+        for(long k = 0; k < n * 2; k++) sum[(size_t)(pos * 2 + k)] = partial[(size_t)k];
+        pos += (int)n; left -= (int)n * 2;
+        p->TickIterators(eat);
+        if(n == 0 && left > 0 && delay <= 0.0 && su.carry < 1.0 && eat <= 0.0) break;
+    }
+    for(int i = 0; i < frames * 2; i++) {
+        int64_t want = sum[(size_t)i]; int64_t x = llround(ref[(size_t)i] * 32767.0);
+        if(want > 32767 || want < -32768) o.tags |= 1ull << T_CLIPPING;
+        if(x != want) { snprintf(b, sizeof b, "frame %d %s: the F64 output is %lld/32767, the sum of the %zu chips' own output is %lld", i / 2, (i & 1) ? "right" : "left", (long long)x, y.m_chips.size(), (long long)want); o.fail("C13/mix/float-is-not-the-sum-of-the-chips", b + ctx); return; }
+        int64_t ws = want < -32768 ? -32768 : want > 32767 ? 32767 : want;
+        if(s16[(size_t)i] != ws) { snprintf(b, sizeof b, "frame %d %s: the S16 output is %d, the saturated sum of the %zu chips' own output is %lld", i / 2, (i & 1) ? "right" : "left", (int)s16[(size_t)i], y.m_chips.size(), (long long)ws); o.fail("C13/mix/s16-is-not-the-saturated-sum", b + ctx); return; }
+    }
+    o.units = (uint64_t)frames * 4; o.nontrivial = true;
+    pl::g_use_null_chips = true;
+}
+
 } // namespace
 
 int main(int argc, char **argv) {
@@ -156,6 +197,11 @@ int main(int argc, char **argv) {
       en::Family F; F.name = "request_sizes_dense"; F.count = (uint64_t)SZ.size() * 3 * 3 * 2; F.chunk = 8; F.budget_s = 120; F.describe = std::string("request size ") + (thorough ? "every value 0..2200" : "every value 0..40 and 1024k-4..1024k+4 for k=1..4") + " x {S16/2, F32/4, U8 in 2-byte container} x 3 layouts x {generate, play}; GENS, 1 chip, loud";
       F.run = [](uint64_t i, en::CaseOut &o) { Cfg c; uint64_t r = i; c.request = SZ[r % SZ.size()]; r /= SZ.size(); int t = (int)(r % 3); c.type = TY[t][0]; c.container = (unsigned)TY[t][1]; r /= 3; c.layout = (int)(r % 3); r /= 3; c.play = r % 2; c.core = OPNMIDI_EMU_GENS; c.chips = 1; c.loud = true; c.rate = 22050;
         if(i % 499 == 0) o.sample = cfg_str(c, NULL); run_case(c, o); };
+      fams.push_back(F); }
+    { // the mix of several chips against a chip-by-chip rendering
+      en::Family F; F.name = "mix_is_sum_of_chips"; F.count = 8 * 4 * 2 * 2; F.chunk = 2; F.budget_s = 120; F.describe = "8 emulator cores x chips {1,2,3,4} x {quiet, loud (every chip channel at full level: partial sums leave the 16-bit range)} x sample rate {22050, 44100}: F64 and S16 output of opn2_generateFormat(2052) against the unclamped sum of every chip's own generate32 output, rendered on a third instance with the same history";
+      F.run = [](uint64_t i, en::CaseOut &o) { Cfg c; uint64_t r = i; c.core = CORES[r % 8]; r /= 8; c.chips = 1 + (int)(r % 4); r /= 4; c.loud = r % 2; r /= 2; c.rate = (r % 2) ? 44100 : 22050; c.play = false; c.request = 2052; c.type = OPNMIDI_SampleType_F64; c.container = 8; c.layout = 1;
+        o.sample = cfg_str(c, NULL); run_mix_case(c, o); };
       fams.push_back(F); }
     return en::run_main(argc, argv, "C13", fams, TAGS, "non-trivial: the call ran with two poison patterns, the guards/strides were accounted for and every reported sample was compared with the documented conversion of the F64 rendering");
 }
